@@ -168,3 +168,13 @@ Proof. split; [exact lex_string_from|exact lex_all_from]. Qed.
 Lemma text_items_ok s : valid_utf8 s = true -> plain_text s = true ->
   forallb sitem_ok (text_items s) = true /\ sitems_text (text_items s) = s /\ sitems_value (text_items s) = s.
 Proof. intros Hv Hp. exact (text_items_spec (String.length s) s 0 (le_n _) Hv Hp). Qed.
+
+Lemma rmark_spec :
+  rmark_text RHex = "x" /\ rmark_radix RHex = 16%N /\
+  rmark_text RBin = "b" /\ rmark_radix RBin = 2%N /\
+  rmark_text ROct = "o" /\ rmark_radix ROct = 8%N /\
+  (forall c r, radix_mark (String c r) =
+     if (byte_of c =? 98)%N then Some 2%N else if (byte_of c =? 120)%N then Some 16%N
+     else if (byte_of c =? 111)%N then Some 8%N else None) /\
+  radix_mark "" = None.
+Proof. repeat split. Qed.
